@@ -580,7 +580,17 @@ func (e *Env) call(x *ECall) Val {
 	case "store":
 		argn(3)
 		m := e.eval(x.Args[0])
-		return Val{K: KScalar, Srt: m.Srt, S: store(m.S, e.evalInt(x.Args[1]), e.eval(x.Args[2]).S)}
+		r := m
+		r.S = store(m.S, e.evalInt(x.Args[1]), e.eval(x.Args[2]).S)
+		return r
+	case "refmap":
+		// refmap(e): an arbitrary ghost map from integers to references of e's type
+		argn(1)
+		v := e.eval(x.Args[0])
+		if v.T == nil {
+			efail("refmap: untyped argument")
+		}
+		return Val{K: KMapView, T: v.T, Srt: arrSort("Int", "Int"), S: c.Fresh("refmap", arrSort("Int", "Int"))}
 	case "swap":
 		argn(3)
 		m := e.eval(x.Args[0])
